@@ -136,7 +136,11 @@ static void run_case(vf_case *c) { /* args: driver, k */
 		const char *kf = NULL;
 		static const char *frames[] = {"dv_free_dynam", "in bn_clean ", "pp_mil_k12", "pp_map_sim_oatep_k12", "eb_mul_lnaf_imp", "eb_mul_ltnaf_imp", "ep_mul_glv_imp", "ep_mul_reg_glv", "ep_mul_naf_imp", "ep_mul_reg_imp", "ep2_mul_", "ep_mul_sim_", NULL};
 		for (int q = 0; frames[q]; q++) if (strstr(o.report, frames[q])) kf = "L32-cleanup-of-uninitialised-temporaries";
-		vf_fail(kf, "%s: failing allocation %ld of %ld: %s", DRV[d].n, k, base.nalloc, o.report); return; }
+		/* the same pattern identified structurally: the faulting statement (source line of the innermost relic frame) RELEASES a temporary (xx_free(t[i]), RLC_FREE(t))
+		 * in a clean-up loop; a fault in any other kind of statement is not excused */
+		char stmt[160] = ""; { const char *f = strstr(o.report, "innermost relic frame: in "); if (f) { const char *sp = strchr(f + 26, ' '); if (sp) { char path[300]; long line = 0; if (sscanf(sp + 1, "%299[^:]:%ld", path, &line) == 2 && line > 0) { FILE *fh = fopen(path, "r"); if (fh) { char buf[400]; long n = 0; while (fgets(buf, sizeof buf, fh)) if (++n == line) { char *b = buf; while (*b == ' ' || *b == '\t') b++; snprintf(stmt, sizeof stmt, "%s", b); size_t L = strlen(stmt); while (L && (stmt[L - 1] == '\n' || stmt[L - 1] == ' ')) stmt[--L] = 0; break; } fclose(fh); } } } } }
+		if (stmt[0] && (strstr(stmt, "_free(") || strstr(stmt, "RLC_FREE(")) && !strstr(stmt, "=")) kf = "L32-cleanup-of-uninitialised-temporaries";
+		vf_fail(kf, "%s: failing allocation %ld of %ld: %s%s%s%s", DRV[d].n, k, base.nalloc, o.report, stmt[0] ? (kf ? "  [faulting statement releases a temporary: " : "  [faulting statement: ") : "", stmt, stmt[0] ? "]" : ""); return; }
 	if (!o.err) vf_fail(NULL, "%s: failure of allocation %ld of %ld was not reported (no error thrown or returned)", DRV[d].n, k, base.nalloc);
 	if (o.report[0]) vf_fail(NULL, "%s: after a failed allocation %ld, %s", DRV[d].n, k, o.report);
 	else { uint64_t again; memcpy(&again, o.report + 500, sizeof again); if (again != base.digest) vf_fail(NULL, "%s: after failed allocation %ld the fault-free repetition computes a different result", DRV[d].n, k); }
